@@ -156,19 +156,22 @@ func (dd *Document) addMethod(service *client_j5pb.Service, method *client_j5pb.
 		}
 	}
 
-	responseSchema, err := convertObjectItem(method.ResponseBody)
-	if err != nil {
-		return fmt.Errorf("response body: %w", err)
-	}
-	operation.Responses = &ResponseSet{{
+	response := Response{
 		Code:        200,
 		Description: "OK",
-		Content: OperationContent{
-			JSON: &OperationSchema{
-				Schema: responseSchema,
-			},
-		},
-	}}
+	}
+	// a method without a response schema returns a raw body, there is no
+	// JSON content to describe.
+	if method.ResponseBody != nil {
+		responseSchema, err := convertObjectItem(method.ResponseBody)
+		if err != nil {
+			return fmt.Errorf("response body: %w", err)
+		}
+		response.Content.JSON = &OperationSchema{
+			Schema: responseSchema,
+		}
+	}
+	operation.Responses = &ResponseSet{response}
 
 	found := false
 	for _, pathItem := range dd.Paths {
